@@ -179,12 +179,14 @@ class Target:
         native: Callable[[Any], bool] | None = None,
         any_typed: bool = False,
         grid: list[Any] | None = None,
-        strategy: Any = None,
+        special: str | None = None,
         rng: tuple[float, float, float] | None = None,
         allowed: tuple = (),
         accepts: Callable[[Any], bool] | None = None,
         generic: bool = True,
         weight: int = 1,
+        dpt: type | None = None,
+        seq: list[tuple[float, float, float]] | None = None,
     ) -> None:
         self.name = name
         self.group = group
@@ -192,12 +194,15 @@ class Target:
         self.native = native or (lambda s: False)
         self.any_typed = any_typed
         self.grid = grid or []
-        self.strategy = strategy
+        self.special = special
         self.rng = rng
         self.allowed = allowed
         self.accepts = accepts
         self.generic = generic
         self.weight = weight
+        self.dpt = dpt
+        self.seq = seq
+        self._grid_cache: list[Any] | None = None
 
     def judged(self, spec: Any) -> bool:
         """Is the class of a non-ConversionError exception judged for this value?"""
@@ -220,18 +225,39 @@ class Target:
                 out.append(v)
         return out
 
-    def value_strategy(self) -> Any:
-        parts = []
-        if self.strategy is not None:
-            parts += [self.strategy, self.strategy]
-        if self.grid:
-            parts.append(st.sampled_from(self.grid))
-        if self.generic or not parts:
-            parts.append(V.generic_strategy())
-        s = st.one_of(parts)
-        if self.accepts is not None:
-            s = s.filter(self.accepts)
-        return s
+    def from_program(self, prog: tuple) -> Any:
+        """Resolve a target-agnostic value program (vk.strategies.valspec.program_strategy)
+        against this target's range / schema / grid.  None = not in this target's domain."""
+        op = prog[0]
+        spec: Any = None
+        if op == "num":
+            rng = self.rng
+            if rng is None and self.seq:
+                rng = self.seq[0]
+            spec = V.resolve_num(prog[1], rng)
+            if self.seq and prog[1][1] % 3 == 0:  # sometimes a scalar where a sequence is expected is fine, mostly build one
+                spec = T(*[spec for _ in self.seq])
+        elif op == "fields" and self.dpt is not None and V.family(self.dpt) == "complex":
+            spec = V.resolve_fields(prog, self.dpt)
+        elif op == "seq" and self.seq:
+            items = [V.resolve_num(p, r) for p, r in zip(prog[1], self.seq)]
+            spec = items if prog[2] else T(*items)
+        elif op == "text" and self.dpt is not None and V.family(self.dpt) == "string":
+            spec = prog[1]
+        elif op == "generic" and self.generic:
+            spec = prog[1]
+        elif op == "special" and self.special == prog[1]:
+            spec = prog[2]
+        else:  # "grid", and the fallback of everything that does not apply to this target
+            if self._grid_cache is None:
+                self._grid_cache = self.grid_values()
+            if not self._grid_cache:
+                return None
+            k = prog[1] if op == "grid" else len(repr(prog))
+            spec = self._grid_cache[k % len(self._grid_cache)]
+        if self.accepts is not None and not self.accepts(spec):
+            return None
+        return spec
 
 
 def encoder_site(exc: BaseException) -> str:
@@ -546,18 +572,12 @@ def _scaling_rng(a: int, b: int) -> tuple[float, float, float]:
     return (min(a, b), max(a, b), abs(b - a) / 255)
 
 
-def _three(strategy: Any, n: int = 3) -> Any:
-    return st.lists(strategy, min_size=n, max_size=n).map(lambda xs: T(*xs))
-
-
 def build_targets() -> list[Target]:
     global _TARGETS
     if _TARGETS is not None:
         return _TARGETS
     ts: list[Target] = []
     G = ga(1)
-    nums = V.numbers_strategy()
-    u8 = V.numeric_strategy(0, 255, 1)
 
     # ---- RemoteValue classes ---------------------------------------------------------
     bool_grid = [True, False, 0, 1, 2, "on", None]
@@ -565,7 +585,7 @@ def build_targets() -> list[Target]:
         ts.append(_rv_target(f"RemoteValueSwitch(invert={inv})", lambda x, inv=inv: RemoteValueSwitch(x, G, invert=inv), native=lambda s: V.kind(s) == "bool", grid=bool_grid))
         for cls, en in ((RemoteValueStep, RemoteValueStep.Direction), (RemoteValueUpDown, RemoteValueUpDown.Direction)):
             egrid = [enum_spec(m) for m in en] + [0, 1, "up", enum_spec(HVACOperationMode.COMFORT)]
-            ts.append(_rv_target(f"{cls.__name__}(invert={inv})", lambda x, cls=cls, inv=inv: cls(x, G, invert=inv), native=_is_enum_of(en), grid=egrid, strategy=st.sampled_from(egrid)))
+            ts.append(_rv_target(f"{cls.__name__}(invert={inv})", lambda x, cls=cls, inv=inv: cls(x, G, invert=inv), native=_is_enum_of(en), grid=egrid))
     ts.append(_rv_target("RemoteValueSwitch", lambda x: RemoteValueSwitch(x, G), mode="value_respond", native=lambda s: V.kind(s) == "bool", grid=bool_grid))
     ts.append(_rv_target("RemoteValueSwitch(no address)", lambda x: RemoteValueSwitch(x, None, ga(2)), native=lambda s: V.kind(s) == "bool", grid=bool_grid))
 
@@ -580,7 +600,6 @@ def build_targets() -> list[Target]:
                     native=_num_native,
                     rng=rng,
                     grid=V.numeric_grid(*rng),
-                    strategy=V.numeric_strategy(*rng),
                     weight=4,
                 )
             )
@@ -588,7 +607,7 @@ def build_targets() -> list[Target]:
     def cplx(name: str, mk: Callable[[XKNX], RemoteValue], dpt_name: str, **kw: Any) -> None:
         dpt = V.dpt_by_name(dpt_name)
         for mode in ("set", "value_respond"):
-            ts.append(_rv_target(name, mk, mode=mode, native=lambda s, dpt=dpt: V.kind(s) == "obj" and V.dpt_native(dpt, s), grid=V.dpt_grid(dpt), strategy=V.dpt_strategy(dpt), **kw))
+            ts.append(_rv_target(name, mk, mode=mode, native=lambda s, dpt=dpt: V.kind(s) == "obj" and V.dpt_native(dpt, s), grid=V.dpt_grid(dpt), dpt=dpt, **kw))
 
     cplx("RemoteValueColorRGB", lambda x: RemoteValueColorRGB(x, G), "DPTColorRGB")
     cplx("RemoteValueColorRGBW", lambda x: RemoteValueColorRGBW(x, G), "DPTColorRGBW")
@@ -601,7 +620,7 @@ def build_targets() -> list[Target]:
     for name, cls, dptn in (("RemoteValueDptValue1Ucount", RemoteValueDptValue1Ucount, "DPTValue1Ucount"), ("RemoteValueSceneNumber", RemoteValueSceneNumber, "DPTSceneNumber"), ("RemoteValueTemp", RemoteValueTemp, "DPTTemperature")):
         dpt = V.dpt_by_name(dptn)
         for mode in ("set", "value_respond"):
-            ts.append(_rv_target(name, lambda x, cls=cls: cls(x, G), mode=mode, native=_num_native, rng=V.dpt_range(dpt), grid=V.dpt_grid(dpt), strategy=V.dpt_strategy(dpt)))
+            ts.append(_rv_target(name, lambda x, cls=cls: cls(x, G), mode=mode, native=_num_native, rng=V.dpt_range(dpt), grid=V.dpt_grid(dpt), dpt=dpt))
 
     for n in (0, 1, 2, 3, 4, 6, 8, 14):
         rng = (0, 63, 1) if n == 0 else (0, 256**n - 1, 1)
@@ -612,13 +631,12 @@ def build_targets() -> list[Target]:
                 native=lambda s: V.kind(s) in ("int", "bool"),
                 rng=rng,
                 grid=V.numeric_grid(*rng),
-                strategy=st.one_of(st.integers(rng[0], rng[1]), V.numeric_strategy(*rng)),
             )
         )
 
     for d in V.all_dpts():
         rng = V.dpt_range(d)
-        common = dict(native=lambda s, d=d: V.dpt_native(d, s), rng=rng, grid=V.dpt_grid(d), strategy=V.dpt_strategy(d))
+        common = dict(native=lambda s, d=d: V.dpt_native(d, s), rng=rng, grid=V.dpt_grid(d), dpt=d)
         ts.append(_rv_target(f"RemoteValueSensor[{d.__name__}]", lambda x, d=d: RemoteValueSensor(x, G, value_type=d), **common))
         if issubclass(d, DPTNumeric):
             ts.append(_rv_target(f"RemoteValueNumeric[{d.__name__}]", lambda x, d=d: RemoteValueNumeric(x, G, value_type=d), mode="value_respond", **common))
@@ -641,7 +659,6 @@ def build_targets() -> list[Target]:
                 native=_num_native,
                 rng=rng,
                 grid=g,
-                strategy=V.numeric_strategy(*rng) if rng else nums,
             )
         )
 
@@ -655,12 +672,11 @@ def build_targets() -> list[Target]:
 
     ts.append(_rv_target("RemoteValueByLength(uninitialised)", lambda x: RemoteValueByLength(x, bl_classes, G), native=_num_native, grid=[0, 1, 21.5]))
     for n, d in zip((1, 2, 4), bl_classes):
-        ts.append(_rv_target(f"RemoteValueByLength(len={n})", lambda x: RemoteValueByLength(x, bl_classes, G), prime=prime_len(n), native=_num_native, rng=V.dpt_range(d), grid=V.dpt_grid(d), strategy=V.dpt_strategy(d)))
+        ts.append(_rv_target(f"RemoteValueByLength(len={n})", lambda x: RemoteValueByLength(x, bl_classes, G), prime=prime_len(n), native=_num_native, rng=V.dpt_range(d), grid=V.dpt_grid(d), dpt=d))
 
     op_grid = V.dpt_grid(V.dpt_by_name("DPTHVACMode"))
     ct_grid = V.dpt_grid(V.dpt_by_name("DPTHVACContrMode"))
     mode_grid = op_grid + ct_grid
-    mode_strategy = st.one_of(V.dpt_strategy(V.dpt_by_name("DPTHVACMode")), V.dpt_strategy(V.dpt_by_name("DPTHVACContrMode")))
     is_op = _is_enum_of(HVACOperationMode)
     is_ct = _is_enum_of(HVACControllerMode)
 
@@ -681,9 +697,9 @@ def build_targets() -> list[Target]:
     for name, mk, prime in climate_rvs:
         extra = status_grid if "HVACStatus" in name else []
         native_set = (lambda s: V.kind(s) in ("enum", "obj", "str", "int")) if "HVACStatus" not in name else _is_obj_of("HVACStatus")
-        ts.append(_rv_target(name, mk, prime=prime, native=native_set, grid=mode_grid + extra, strategy=mode_strategy))
-        ts.append(_rv_target(name, mk, prime=prime, method="set_operation_mode", native=is_op, grid=mode_grid, strategy=mode_strategy))
-        ts.append(_rv_target(name, mk, prime=prime, method="set_controller_mode", native=is_ct, grid=mode_grid, strategy=mode_strategy))
+        ts.append(_rv_target(name, mk, prime=prime, native=native_set, grid=mode_grid + extra))
+        ts.append(_rv_target(name, mk, prime=prime, method="set_operation_mode", native=is_op, grid=mode_grid))
+        ts.append(_rv_target(name, mk, prime=prime, method="set_controller_mode", native=is_ct, grid=mode_grid))
 
     # ---- devices -----------------------------------------------------------------------
     a = [ga(10 + i) for i in range(12)]
@@ -694,7 +710,7 @@ def build_targets() -> list[Target]:
         return lambda x: Light(x, "light", **kw)
 
     def dev_num(name: str, group: str, mk: Callable[[XKNX], tuple[Any, Callable]], rng: Any, **kw: Any) -> None:
-        ts.append(_dev_target(name, group, mk, native=_num_native, rng=rng, grid=V.numeric_grid(*rng) if rng else [], strategy=V.numeric_strategy(*rng) if rng else nums, **kw))
+        ts.append(_dev_target(name, group, mk, native=_num_native, rng=rng, grid=V.numeric_grid(*rng) if rng else [], **kw))
 
     dev_num("Light.set_brightness", "Light.set_brightness", lambda x: (lambda d: (d, d.set_brightness))(light(group_address_switch=a[0], group_address_brightness=a[1])(x)), bri_rng, weight=4)
     dev_num("Light.set_tunable_white", "Light.set_tunable_white", lambda x: (lambda d: (d, d.set_tunable_white))(light(group_address_switch=a[0], group_address_tunable_white=a[1])(x)), bri_rng)
@@ -703,8 +719,8 @@ def build_targets() -> list[Target]:
         dev_num(f"Light.set_color_temperature[{ctt.name}]", "Light.set_color_temperature", lambda x, ctt=ctt: (lambda d: (d, d.set_color_temperature))(light(group_address_switch=a[0], group_address_color_temperature=a[1], color_temperature_type=ctt)(x)), rng)
 
     rgb_grid = [T(0, 0, 0), T(255, 255, 255), T(256, 0, 0), T(0, 300, 0), T(0, 0, -1), T(1.5, 2, 3), T(10, INF, 10), T(10, NAN, 10), T(1, 2, True), [1, 2, 3], [1, 300, 3], T(1, "2", 3), T(1, None, 3), T(1, 2), T(1, 2, 3, 4), T(255.4, 0, 0), T(-0.4, 0, 0)]
-    rgb_strategy = _three(st.one_of(u8, u8, nums))
-    ts.append(_dev_target("Light.set_color[rgb]", "Light.set_color[rgb]", lambda x: (lambda d: (d, d.set_color))(light(group_address_switch=a[0], group_address_color=a[1])(x)), native=_seq_of_numbers(3), grid=rgb_grid, strategy=rgb_strategy, weight=2))
+    rgb_seq = [(0, 255, 1)] * 3
+    ts.append(_dev_target("Light.set_color[rgb]", "Light.set_color[rgb]", lambda x: (lambda d: (d, d.set_color))(light(group_address_switch=a[0], group_address_color=a[1])(x)), native=_seq_of_numbers(3), grid=rgb_grid, seq=rgb_seq, weight=2))
     ts.append(
         _dev_target(
             "Light.set_color[individual rgb]",
@@ -712,7 +728,7 @@ def build_targets() -> list[Target]:
             lambda x: (lambda d: (d, d.set_color))(light(group_address_brightness_red=a[1], group_address_brightness_green=a[2], group_address_brightness_blue=a[3])(x)),
             native=_seq_of_numbers(3),
             grid=rgb_grid,
-            strategy=rgb_strategy,
+            seq=rgb_seq,
             weight=4,
         )
     )
@@ -726,8 +742,8 @@ def build_targets() -> list[Target]:
         return call
 
     rgbw_grid = [T(0, 0, 0, 0), T(255, 255, 255, 255), T(1, 2, 3, 256), T(1, 2, 3, -1), T(300, 2, 3, 4), T(1, 2, 3, 4.5), T(1, 2, 3, INF), T(1, 2, 3, None), T(1, 2.5, 3, 4)]
-    rgbw_strategy = _three(st.one_of(u8, u8, nums), 4)
-    ts.append(_dev_target("Light.set_color[rgbw]", "Light.set_color[rgbw]", lambda x: (lambda d: (d, rgbw_call(d)))(light(group_address_switch=a[0], group_address_rgbw=a[1])(x)), native=_seq_of_numbers(4), grid=rgbw_grid + rgb_grid, strategy=rgbw_strategy, weight=2))
+    rgbw_seq = [(0, 255, 1)] * 4
+    ts.append(_dev_target("Light.set_color[rgbw]", "Light.set_color[rgbw]", lambda x: (lambda d: (d, rgbw_call(d)))(light(group_address_switch=a[0], group_address_rgbw=a[1])(x)), native=_seq_of_numbers(4), grid=rgbw_grid + rgb_grid, seq=rgbw_seq, weight=2))
     ts.append(
         _dev_target(
             "Light.set_color[individual rgbw]",
@@ -735,15 +751,15 @@ def build_targets() -> list[Target]:
             lambda x: (lambda d: (d, rgbw_call(d)))(light(group_address_brightness_red=a[1], group_address_brightness_green=a[2], group_address_brightness_blue=a[3], group_address_brightness_white=a[4])(x)),
             native=_seq_of_numbers(4),
             grid=rgbw_grid + rgb_grid,
-            strategy=rgbw_strategy,
+            seq=rgbw_seq,
             weight=2,
         )
     )
     hs_grid = [T(0, 0), T(360, 100), T(361, 50), T(10, 101), T(10, 150), T(-1, 50), T(400, 150), T(10.5, 20.5), T(10, INF), T(INF, 10), T(10, NAN), T(10, None), T(10, "x"), T(10,), T(1, 2, 3), [10, 20], [10, 150]]
-    hs_strategy = st.tuples(st.one_of(V.numeric_strategy(0, 360, 360 / 255), nums), st.one_of(V.numeric_strategy(0, 100, 100 / 255), nums)).map(lambda t: T(*t))
-    ts.append(_dev_target("Light.set_hs_color", "Light.set_hs_color", lambda x: (lambda d: (d, d.set_hs_color))(light(group_address_switch=a[0], group_address_hue=a[1], group_address_saturation=a[2])(x)), native=_seq_of_numbers(2), grid=hs_grid, strategy=hs_strategy, weight=4))
+    hs_seq = [(0, 360, 360 / 255), (0, 100, 100 / 255)]
+    ts.append(_dev_target("Light.set_hs_color", "Light.set_hs_color", lambda x: (lambda d: (d, d.set_hs_color))(light(group_address_switch=a[0], group_address_hue=a[1], group_address_saturation=a[2])(x)), native=_seq_of_numbers(2), grid=hs_grid, seq=hs_seq, weight=4))
     xyy = V.dpt_by_name("DPTColorXYY")
-    ts.append(_dev_target("Light.set_xyy_color", "Light.set_xyy_color", lambda x: (lambda d: (d, d.set_xyy_color))(light(group_address_switch=a[0], group_address_xyy_color=a[1])(x)), native=_is_obj_of("XYYColor"), grid=V.dpt_grid(xyy), strategy=V.dpt_strategy(xyy)))
+    ts.append(_dev_target("Light.set_xyy_color", "Light.set_xyy_color", lambda x: (lambda d: (d, d.set_xyy_color))(light(group_address_switch=a[0], group_address_xyy_color=a[1])(x)), native=_is_obj_of("XYYColor"), grid=V.dpt_grid(xyy), dpt=xyy))
     ts.append(_dev_target("Light.set_on/off", "Light.set_on/off", lambda x: (lambda d: (d, lambda v: d.set_on() if v else d.set_off()))(light(group_address_switch=a[0])(x)), native=lambda s: V.kind(s) == "bool", grid=[True, False], generic=False))
     ts.append(_dev_target("Light.set_on/off[individual]", "Light.set_on/off", lambda x: (lambda d: (d, lambda v: d.set_on() if v else d.set_off()))(light(group_address_switch_red=a[0], group_address_brightness_red=a[1], group_address_switch_green=a[2], group_address_brightness_green=a[3], group_address_switch_blue=a[4], group_address_brightness_blue=a[5])(x)), native=lambda s: V.kind(s) == "bool", grid=[True, False], generic=False))
 
@@ -816,18 +832,18 @@ def build_targets() -> list[Target]:
     ]
     for label, mk in cm_cfgs:
         for meth, pred in (("set_operation_mode", is_op), ("set_controller_mode", is_ct)):
-            ts.append(_dev_target(f"ClimateMode.{meth}[{label}]", f"ClimateMode.{meth}", lambda x, mk=mk, meth=meth: (lambda d: (d, getattr(d, meth)))(mk(x)), native=pred, grid=mode_grid, strategy=mode_strategy, allowed=(DeviceIllegalValue,)))
+            ts.append(_dev_target(f"ClimateMode.{meth}[{label}]", f"ClimateMode.{meth}", lambda x, mk=mk, meth=meth: (lambda d: (d, getattr(d, meth)))(mk(x)), native=pred, grid=mode_grid, allowed=(DeviceIllegalValue,)))
 
     sample = _dpt_sample()
     for d in sample:
         rng = V.dpt_range(d)
-        common = dict(rng=rng, grid=V.dpt_grid(d), strategy=V.dpt_strategy(d))
+        common = dict(rng=rng, grid=V.dpt_grid(d), dpt=d)
         if issubclass(d, DPTNumeric):
             ts.append(_dev_target(f"NumericValue.set[{d.__name__}]", "NumericValue.set", lambda x, d=d: (lambda dev: (dev, dev.set))(NumericValue(x, "num", group_address=a[0], value_type=d)), native=_num_native, **common))
         ts.append(_dev_target(f"ExposeSensor.set[{d.__name__}]", "ExposeSensor.set", lambda x, d=d: (lambda dev: (dev, dev.set))(ExposeSensor(x, "exp", group_address=a[0], value_type=d)), native=lambda s, d=d: V.dpt_native(d, s), any_typed=True, **common))
     ts.append(_dev_target("ExposeSensor.set[binary]", "ExposeSensor.set", lambda x: (lambda dev: (dev, dev.set))(ExposeSensor(x, "exp", group_address=a[0], value_type="binary")), native=lambda s: V.kind(s) == "bool", any_typed=True, grid=bool_grid))
     pct = V.dpt_by_name("DPTScaling")
-    ts.append(_dev_target("ExposeSensor.set[percent,cooldown]", "ExposeSensor.set", lambda x: (lambda dev: (dev, dev.set))(ExposeSensor(x, "exp", group_address=a[0], value_type="percent", cooldown=5)), native=_num_native, any_typed=True, rng=V.dpt_range(pct), grid=V.dpt_grid(pct), strategy=V.dpt_strategy(pct)))
+    ts.append(_dev_target("ExposeSensor.set[percent,cooldown]", "ExposeSensor.set", lambda x: (lambda dev: (dev, dev.set))(ExposeSensor(x, "exp", group_address=a[0], value_type="percent", cooldown=5)), native=_num_native, any_typed=True, rng=V.dpt_range(pct), grid=V.dpt_grid(pct), dpt=pct))
 
     def expose_respond(x: XKNX):
         dev = ExposeSensor(x, "exp", group_address=a[0], value_type="percent")
@@ -838,11 +854,11 @@ def build_targets() -> list[Target]:
 
         return dev, call
 
-    ts.append(_dev_target("ExposeSensor.initialize_value+respond[percent]", "ExposeSensor.initialize_value", expose_respond, native=_num_native, any_typed=True, rng=V.dpt_range(pct), grid=V.dpt_grid(pct), strategy=V.dpt_strategy(pct)))
+    ts.append(_dev_target("ExposeSensor.initialize_value+respond[percent]", "ExposeSensor.initialize_value", expose_respond, native=_num_native, any_typed=True, rng=V.dpt_range(pct), grid=V.dpt_grid(pct), dpt=pct))
 
     for n in (0, 1, 2):
         rng = (0, 63, 1) if n == 0 else (0, 256**n - 1, 1)
-        ts.append(_dev_target(f"RawValue.set({n})", "RawValue.set", lambda x, n=n: (lambda dev: (dev, dev.set))(RawValue(x, "raw", n, group_address=a[0])), native=lambda s: V.kind(s) in ("int", "bool"), rng=rng, grid=V.numeric_grid(*rng), strategy=V.numeric_strategy(*rng)))
+        ts.append(_dev_target(f"RawValue.set({n})", "RawValue.set", lambda x, n=n: (lambda dev: (dev, dev.set))(RawValue(x, "raw", n, group_address=a[0])), native=lambda s: V.kind(s) in ("int", "bool"), rng=rng, grid=V.numeric_grid(*rng)))
     for meth in ("run", "learn"):
         ts.append(
             _dev_target(
@@ -851,7 +867,7 @@ def build_targets() -> list[Target]:
                 lambda x, meth=meth: (None, None),  # replaced below
                 native=lambda s: V.kind(s) == "int",
                 grid=[0, 1, 2, 63, 64, 65, 100, 255, 256, -1],
-                strategy=st.integers(-3, 300),
+                rng=(1, 64, 1),
                 generic=False,
                 accepts=lambda s: V.kind(s) == "int" and abs(s) < 10**6,
             )
@@ -869,7 +885,7 @@ def build_targets() -> list[Target]:
 
         ts[-1].build = scene_build
     for d in (V.dpt_by_name("DPTString"), V.dpt_by_name("DPTLatin1")):
-        ts.append(_dev_target(f"Notification.set[{d.__name__}]", "Notification.set", lambda x, d=d: (lambda dev: (dev, dev.set))(Notification(x, "notif", group_address=a[0], value_type=d)), native=lambda s: V.kind(s) == "str", grid=V.STRING_GRID, strategy=V.string_strategy()))
+        ts.append(_dev_target(f"Notification.set[{d.__name__}]", "Notification.set", lambda x, d=d: (lambda dev: (dev, dev.set))(Notification(x, "notif", group_address=a[0], value_type=d)), native=lambda s: V.kind(s) == "str", grid=V.STRING_GRID, dpt=d))
     ts.append(_dev_target("Switch.set_on/off", "Switch.set_on/off", lambda x: (lambda d: (d, lambda v: d.set_on() if v else d.set_off()))(Switch(x, "switch", group_address=a[0], invert=True, reset_after=1.0)), native=lambda s: V.kind(s) == "bool", grid=[True, False], generic=False))
 
     dt_grid = [
@@ -877,11 +893,6 @@ def build_targets() -> list[Target]:
         {"$": "date", "v": [1, 1, 1]}, {"$": "date", "v": [1989, 12, 31]}, {"$": "date", "v": [1990, 1, 1]}, {"$": "date", "v": [2089, 12, 31]}, {"$": "date", "v": [2090, 1, 1]}, {"$": "date", "v": [9999, 12, 31]},
         {"$": "datetime", "v": [1, 1, 1]}, {"$": "datetime", "v": [1899, 12, 31, 23, 59, 59]}, {"$": "datetime", "v": [1900, 1, 1]}, {"$": "datetime", "v": [2155, 12, 31, 23, 59, 59]}, {"$": "datetime", "v": [2156, 1, 1]}, {"$": "datetime", "v": [9999, 12, 31]},
     ]
-    dt_strategy = st.one_of(
-        st.times().map(lambda t: {"$": "time", "v": [t.hour, t.minute, t.second, t.microsecond]}),
-        st.dates().map(lambda d: {"$": "date", "v": [d.year, d.month, d.day]}),
-        st.datetimes().map(lambda d: {"$": "datetime", "v": [d.year, d.month, d.day, d.hour, d.minute, d.second]}),
-    )
     for cls, dptn, objn, pykind in ((TimeDevice, "DPTTime", "KNXTime", "time"), (DateDevice, "DPTDate", "KNXDate", "date"), (DateTimeDevice, "DPTDateTime", "KNXDateTime", "datetime")):
         d = V.dpt_by_name(dptn)
         # datetime.datetime is a datetime.date: both are what DateDevice.set() is annotated with
@@ -893,31 +904,24 @@ def build_targets() -> list[Target]:
                 lambda x, cls=cls: (lambda dev: (dev, dev.set))(cls(x, "dt", group_address=a[0])),
                 native=lambda s, objn=objn, kinds=kinds: V.kind(s) in kinds or _is_obj_of(objn)(s),
                 grid=V.dpt_grid(d) + dt_grid,
-                strategy=st.one_of(V.dpt_strategy(d), dt_strategy),
+                dpt=d,
+                special="datetime",
             )
         )
 
     # ---- group communication helpers and MCP write tool ------------------------------------
     raw_grid = [0, 1, 63, 64, -1, True, [0], [255], [256], [-1], [1, 2, 3], T(0x0C, 0x00), T(300,), B(b"\x0c\x00"), [], T(), B(b""), [0] * 253, [0] * 254, [1.0], [[1]]]
-    raw_strategy = st.one_of(
-        st.integers(-2, 70),
-        st.lists(st.integers(0, 255), max_size=16),
-        st.lists(st.integers(0, 255), max_size=16).map(lambda xs: T(*xs)),
-        st.lists(st.integers(-3, 300), max_size=6),
-        st.binary(max_size=16).map(B),
-        st.integers(250, 260).map(lambda n: [0] * n),
-    )
     def raw_decode(t: Telegram) -> Any:
         pv = t.payload.value
         return pv.value if isinstance(pv, DPTBinary) else None
 
     raw_label = Probe((lambda t: "_parse_payload[raw]"), raw_decode)
     for fname, fn in (("group_value_write", group_value_write), ("group_value_response", group_value_response)):
-        ts.append(Target(f"tools:{fname}[raw]", f"tools.{fname}[raw]", lambda x, fn=fn: ((lambda v: fn(x, G, v)), raw_label), any_typed=True, native=lambda s: V.kind(s) in ("int", "bool", "list", "tuple", "bytes"), grid=raw_grid, strategy=raw_strategy, weight=6))
+        ts.append(Target(f"tools:{fname}[raw]", f"tools.{fname}[raw]", lambda x, fn=fn: ((lambda v: fn(x, G, v)), raw_label), any_typed=True, native=lambda s: V.kind(s) in ("int", "bool", "list", "tuple", "bytes"), grid=raw_grid, special="raw", weight=6))
 
     for d in V.all_dpts():
         rng = V.dpt_range(d)
-        common = dict(native=lambda s, d=d: V.dpt_native(d, s), any_typed=True, rng=rng, grid=V.dpt_grid(d), strategy=V.dpt_strategy(d))
+        common = dict(native=lambda s, d=d: V.dpt_native(d, s), any_typed=True, rng=rng, grid=V.dpt_grid(d), dpt=d)
         label = Probe((lambda t, d=d: f"{d.__name__}.to_knx"), (lambda t, d=d: d.from_knx(t.payload.value)))
         ts.append(Target(f"tools:group_value_write[{d.__name__}]", "tools.group_value_write[dpt]", lambda x, d=d, label=label: ((lambda v: group_value_write(x, G, v, d)), label), **common))
         if d in sample:
@@ -940,7 +944,7 @@ def build_targets() -> list[Target]:
             any_typed=True,
             native=lambda s: V.kind(s) in ("int", "bool", "list"),
             grid=raw_grid,
-            strategy=raw_strategy,
+            special="raw",
             accepts=_json_only,
             weight=6,
         )
@@ -957,7 +961,7 @@ def build_targets() -> list[Target]:
                 any_typed=True,
                 rng=V.dpt_range(d),
                 grid=V.dpt_grid(d),
-                strategy=V.dpt_strategy(d),
+                dpt=d,
             )
         )
 
@@ -1015,26 +1019,30 @@ def _grid_shard(ctx, nshards: int, tier_quick: bool) -> None:
 
 
 def _case_strategy(ts: list[Target]) -> Any:
-    weighted: list[int] = []
+    """(position in the weighted target list, value program): one static strategy for all targets."""
+    return st.tuples(st.integers(0, sum(t.weight for t in ts) - 1), V.program_strategy())
+
+
+def _weighted(ts: list[Target]) -> list[int]:
+    out: list[int] = []
     for i, t in enumerate(ts):
-        weighted += [i] * t.weight
-    cache: dict[int, Any] = {}
-
-    def values(i: int) -> Any:
-        if i not in cache:
-            cache[i] = ts[i].value_strategy()
-        return st.tuples(st.just(i), cache[i])
-
-    return st.sampled_from(weighted).flatmap(values)
+        out += [i] * t.weight
+    return out
 
 
 def _hyp_shard(ctx, n: int) -> None:
     ts = build_targets()
     h = Harness()
 
-    def oracle(c, case: tuple[int, Any]) -> None:
-        i, spec = case
-        run_case(c, h, ts[i], spec)
+    index = _weighted(ts)
+
+    def oracle(c, case: tuple[int, tuple]) -> None:
+        w, prog = case
+        tgt = ts[index[w]]
+        spec = tgt.from_program(prog)
+        if spec is None:
+            return
+        run_case(c, h, tgt, spec)
 
     try:
         hyp_search(ctx, _case_strategy(ts), oracle, n, shrink_cap_s=6.0 if ctx.quick else 40.0)
